@@ -72,6 +72,14 @@ def engine_spec(name):
         objs += [("gen_rc", "gen_rc.cpp", ["g++", "-std=gnu++17", "-O1", "-g"])]
         link = ["g++", "-fsanitize=address,undefined"]
         libs = ["-lrapidcheck"]
+    elif name == "plain":
+        # the sequential engine without sanitizers and without checked iterators (whose bookkeeping is linear in the number of
+        # stored iterators): only for the statistical rr runs at large capacities, where the oracle is a count
+        fl = ["g++", "-std=gnu++17", "-O2", "-g"]
+        objs = [("ad%d" % k, "adapters.cpp", fl + ["-DVERIF_KIND=%d" % k]) for k in range(10)]
+        objs += [(n, n + ".cpp", fl) for n in ("box_common", "engine", "twin", "main_seq", "interpose", "gen_rc")]
+        link = ["g++"]
+        libs = ["-lrapidcheck"]
     elif name == "fuzz":
         objs = [("ad%d" % k, "adapters.cpp", CLANG_FUZZ + ["-DVERIF_KIND=%d" % k]) for k in range(10)]
         objs += [(n, n + ".cpp", CLANG_FUZZ) for n in ("box_common", "engine", "twin", "interpose", "fuzz_seq")]
@@ -394,8 +402,12 @@ def seq_check(prop, tier, seed, cfg):
     base = (seed * 1000003 + int(hashlib.sha256(prop.encode()).hexdigest()[:6], 16)) % (2 ** 31)
     jobs = []
     plan = (cfg.get("thorough_profiles") if tier == "thorough" else None) or cfg.get("profiles") or [(cfg["profile"], cfg.get("kinds"), mode, 1.0)]
+    engines = {}
     for w in range(workers):
-        profile, kinds, wmode, scale = plan[w % len(plan)]
+        ent = plan[w % len(plan)]
+        profile, kinds, wmode, scale = ent[:4]
+        if len(ent) > 4:
+            engines[w] = build(ent[4])
         jobs.append((w, (profile, wmode, scale), kinds, 0))
 
     def run_worker(job):
@@ -403,7 +415,7 @@ def seq_check(prop, tier, seed, cfg):
         env = dict(os.environ, **SAN_ENV)
         env.update(tcfg.get("env", {}))
         env["RC_PARAMS"] = "seed=%d max_success=%d max_size=%d" % (base + w * 7919 + attempt * 104729, max(1, int(tcfg["cases"] * scale)), tcfg["max_size"])
-        cmd = [binp, "gen", "--property", prop, "--mode", wmode, "--profile", profile, "--out", work, "--worker", str(w)]
+        cmd = [engines.get(w, binp), "gen", "--property", prop, "--mode", wmode, "--profile", profile, "--out", work, "--worker", str(w)]
         if kinds:
             cmd += ["--kinds", ",".join(kinds)]
         for f in ("stats-w%d.txt", "fail-w%d.case", "crash-w%d.case"):
@@ -452,7 +464,7 @@ def seq_check(prop, tier, seed, cfg):
                         fh.write("# property %s mode %s\n# predicate %s [%s] step %s\n# %s\n%s" % (
                             prop, wmode, st.get("fail_pred"), st.get("fail_tags"), st.get("fail_step"), st.get("fail_msg"), st["fail_case"]))
                     # confirm in a fresh process, three times
-                    oks = [run_replay(binp, prop, wmode, path) for _ in range(3)]
+                    oks = [run_replay(engines.get(w, binp), prop, wmode, path) for _ in range(3)]
                     if all(o["verdict"] == 1 for o in oks):
                         kf = match_known(prop, oks[0]["pred"], st["fail_case"])
                         if kf:
@@ -721,6 +733,8 @@ def cmd_replay(prop, path):
         m = re.search(r"^# (?:property \S+ )?mode (\S+)", text, re.M)
         if m:
             mode = m.group(1)
+        if mode == "stats-rr-mass":
+            binp = build("plain")
         r = run_replay(binp, prop, mode, path, strict_f8="# known-finding" in text)
         sys.stdout.write(r["out"])
         if r["crash"]:
@@ -743,10 +757,8 @@ def main():
         return 2
     cmd = sys.argv[1]
     if cmd == "setup":
-        engines = ["seq", "fuzz", "race", "sched"]
-        for e in engines:
-            if os.path.exists(os.path.join(SRC, {"seq": "main_seq.cpp", "fuzz": "fuzz_seq.cpp", "race": "race.cpp", "sched": "sched.cpp"}[e])):
-                build(e)
+        for e in ("seq", "fuzz", "race", "sched", "plain"):
+            build(e)
         return 0
     if cmd == "check":
         prop = sys.argv[2]
